@@ -38,6 +38,35 @@ def install_shadows():
     except Exception as e:  # noqa: BLE001
         _shadow["unavailable"].append(f"year-start cache: {e!r}")
     try:
+        from pyoda_time.calendars._hebrew_scriptural_calculator import _HebrewScripturalCalculator as H
+        nocache = getattr(H, "_HebrewScripturalCalculator__elapsed_days_no_cache")
+        orig_e = H.__dict__["_elapsed_days"].__func__
+        orig_m = H.__dict__["_days_in_month"].__func__
+
+        def shadow_elapsed(cls, year):
+            r = orig_e(cls, year)
+            e = nocache(year)
+            with _shadow_lock:
+                _shadow["evals"] += 1
+                if r != e and len(_shadow["mismatches"]) < 20:
+                    _shadow["mismatches"].append(["hebrew-elapsed-days-cache", year, r, e])
+            return r
+
+        def shadow_month(cls, year, month):
+            r = orig_m(cls, year, month)
+            if month in (8, 9):
+                L = nocache(year + 1) - nocache(year)
+                e = (30 if L % 10 == 5 else 29) if month == 8 else (29 if L % 10 == 3 else 30)
+                with _shadow_lock:
+                    _shadow["evals"] += 1
+                    if r != e and len(_shadow["mismatches"]) < 20:
+                        _shadow["mismatches"].append(["hebrew-month-length-cache", year, month, r, e])
+            return r
+        H._elapsed_days = classmethod(shadow_elapsed)
+        H._days_in_month = classmethod(shadow_month)
+    except Exception as e:  # noqa: BLE001
+        _shadow["unavailable"].append(f"hebrew cache: {e!r}")
+    try:
         from pyoda_time.time_zones._cached_date_time_zone import _CachedDateTimeZone as C
         orig_z = C.get_zone_interval
 
